@@ -414,6 +414,18 @@ func runScenario(sc *Scenario, maxSteps int) *Result {
 		if sc.Polite {
 			acts = r.polite(acts)
 		}
+		// "nothing enabled" decides the liveness clauses (a hang is reported from it): confirm it - a goroutine that has
+		// logged its trace point but is only just entering the parked set must not be mistaken for a blocked one
+		for confirm := 0; len(acts) == 0 && confirm < 3; confirm++ {
+			time.Sleep(15 * time.Millisecond)
+			if !s.WaitQuiescent() {
+				break
+			}
+			acts = r.enabled()
+			if sc.Polite {
+				acts = r.polite(acts)
+			}
+		}
 		if len(acts) == 0 {
 			break
 		}
